@@ -93,7 +93,7 @@ CtorOnlyVC == {"str2", "str8", "str16", "str16kw", "xkw", "xkwstr16",
 (* classes that denote the integer v exactly *)
 ExactVC == {"int", "str10", "bytes10"} \cup CtorOnlyVC \cup CiClasses
 FloatVC == {"float", "floatfrac", "floatinf", "floatninf", "floatnan"}
-NoNumVC == {"none", "badstr", "emptystr", "dtstr", "cimdatetime",
+NoNumVC == {"none", "badstr", "floatstr", "emptystr", "dtstr", "cimdatetime",
             "pydatetime", "object", "floatinf", "floatninf", "floatnan"}
 ValueClasses == ExactVC \cup FloatVC \cup NoNumVC
                 \cup {"bool", "real32obj", "real64obj", "list"}
@@ -166,7 +166,8 @@ NoV == V("Z", 0)
 
 PyClass(vc) ==
   CASE vc = "int" -> "int"
-    [] vc \in {"str10", "badstr", "emptystr", "dtstr"} \cup CtorOnlyVC -> "str"
+    [] vc \in {"str10", "badstr", "floatstr", "emptystr", "dtstr"}
+         \cup CtorOnlyVC -> "str"
     [] vc = "bytes10" -> "bytes"
     [] vc \in CiClasses -> ClassOf[CiType(vc)]
     [] vc \in FloatVC -> "float"
@@ -186,7 +187,8 @@ PyInt(vc, v) ==
     [] vc = "floatfrac" ->          \* v + 0.5, truncated towards zero
          <<"ok", IF IsNeg(v) THEN V(v.a, v.d + 1) ELSE v>>
     [] vc \in {"floatinf", "floatninf"} -> <<InfExc>>
-    [] vc \in {"floatnan", "badstr", "emptystr", "dtstr"} -> <<"ValueError">>
+    [] vc \in {"floatnan", "badstr", "floatstr", "emptystr", "dtstr"}
+         -> <<"ValueError">>
     [] vc \in {"none", "cimdatetime", "pydatetime", "object", "list"}
          -> <<"TypeError">>
 
@@ -203,7 +205,8 @@ CimTypeOf(vc) ==
     [] vc = "real32obj" -> "real32"
     [] vc = "real64obj" -> "real64"
     [] vc = "bool" -> "boolean"
-    [] vc \in {"str10", "badstr", "emptystr", "dtstr", "bytes10"} -> "string"
+    [] vc \in {"str10", "badstr", "floatstr", "emptystr", "dtstr", "bytes10"}
+         -> "string"
     [] vc \in {"cimdatetime", "pydatetime"} -> "datetime"
     [] OTHER -> "TypeError"
 
